@@ -23,7 +23,7 @@ THEOREMS_BY_PROP = {
             "DepLogic.C09.musllinux_tags", "DepLogic.C09.macos_arm64_tags", "DepLogic.C09.macos10_x86_64_tags",
             "DepLogic.C09.macos11_x86_64_tags", "DepLogic.C09.windows_tags", "DepLogic.C09.rangeDown_mem",
             "DepLogic.C09.downFrom_sorted"],
-    "C16": ["DepLogic.C16.widen_keeps", "DepLogic.C16.and_isEmpty_comm", "DepLogic.C16.compare_refl",
+    "C16": ["DepLogic.C16.widen_keeps", "DepLogic.C16.widen_keeps_cuts", "DepLogic.C16.widen_or_keeps", "DepLogic.C16.and_isEmpty_comm", "DepLogic.C16.compare_refl",
             "DepLogic.C16.compare_incompatible_symm", "DepLogic.C16.compare_not_higher_both",
             "DepLogic.C16.manylinux_nested", "DepLogic.C16.beq_refl", "DepLogic.C16.beq_symm"],
     "C18": ["DepLogic.C18.wheel_roundtrip", "DepLogic.C18.bad_extension", "DepLogic.C18.bad_part_count",
